@@ -10,7 +10,7 @@ import (
 	"verif/harness/internal/simkit"
 )
 
-const commonRule = "rapid-generated histories of 1-3 protocol-following NFSv4.1 client simulators (client IDs, CREATE_SESSION sequence IDs, session IDs, slot sequence IDs, state IDs and file handles are taken from replies only) against the real NewNFS41Program + OpenedFilesPool + NFS handle allocator + in-memory prepopulated directory with counting leaves, inside testing/synctest: every COMPOUND runs in its own goroutine, leaf I/O and VirtualOpenChild can park and are released by generated actions, synctest.Wait after every action, simulated clock. Actions: EXCHANGE_ID (same/new verifier), CREATE_SESSION (next/replay/misordered), DESTROY_SESSION, DESTROY_CLIENTID, orderly shutdown, OPEN (CLAIM_NULL all create modes, CLAIM_FH, CLAIM_PREVIOUS with/without open state of that owner and with every delegate type, the four delegation claims, share_deny 1..3 and undefined values; R/W/RW), OPEN_DOWNGRADE, CLOSE, LOCK (new/existing lock-owner), LOCKT, LOCKU, FREE_STATEID, TEST_STATEID, READ/WRITE/SETATTR (open, lock, anonymous, read-bypass state IDs), REMOVE, RENAME (also over an open file, via PUTROOTFH and via PUTFH), LINK (also of open and of unlinked-but-open files), LOOKUP, PUTFH probes, RECLAIM_COMPLETE, DESTROY_SESSION/DESTROY_CLIENTID inside SEQUENCE, clock advances around the lease time, state-ID deviations (seqid 0/old/future, other file, other client, dead, wrong kind, garbage), retransmissions, duplicates of in-flight requests, false retries, misordered sequence IDs, bad slots and sessions; one-shot injected failures (EIO/EACCES/ENOENT) of VirtualOpenChild, VirtualOpenSelf, file allocation, VirtualRead/VirtualWrite (after the park) and VirtualSetAttributes; initial CREATE_SESSION sequence IDs at 2^32-3..2^32-1 and 0; preset_slot: the last sequence ID of an idle slot is placed at 2^32-3..2^32-1 or 0 through the hook VerifSetSlotSequenceID (what 2^32 requests on the slot would have done; the model then treats the slot as one without a cached reply), after which new requests, retransmissions, in-flight duplicates, false retries and misordered sequence IDs are aimed at that slot 60% of the time, so that they straddle the wrap-around 2^32-1 -> 0; preset_stateid_seqid: the seqid of a live open or lock state ID of a client without a request in flight is placed at 2^32-3..2^32-1 through VerifSetStateIDSeqID, after which OPEN upgrades, OPEN_DOWNGRADE, LOCK, LOCKU, CLOSE, FREE_STATEID, TEST_STATEID and I/O prefer that state ID, the model bumps the seqid as incrementSeqID documents (1 follows 2^32-1, 0 is skipped) and the old/future deviations step back/forward through the same cycle; an observer client that LOCKTs every unit x {READ, WRITE} of the files touched by a release (always in the C20 profile, 10% elsewhere, and always once before the final lease expiry); final drain: release everything, all leases expire, one more call. "
+const commonRule = "rapid-generated histories of 1-3 protocol-following NFSv4.1 client simulators (client IDs, CREATE_SESSION sequence IDs, session IDs, slot sequence IDs, state IDs and file handles are taken from replies only) against the real NewNFS41Program + OpenedFilesPool + NFS handle allocator + in-memory prepopulated directory with counting leaves, inside testing/synctest: every COMPOUND runs in its own goroutine, leaf I/O and VirtualOpenChild can park and are released by generated actions, synctest.Wait after every action, simulated clock. Actions: EXCHANGE_ID (same/new verifier), CREATE_SESSION (next/replay/misordered), DESTROY_SESSION, DESTROY_CLIENTID, orderly shutdown, OPEN (CLAIM_NULL all create modes, CLAIM_FH, CLAIM_PREVIOUS with/without open state of that owner and with every delegate type, the four delegation claims, share_deny 1..3 and undefined values; R/W/RW), OPEN_DOWNGRADE, CLOSE, LOCK (new/existing lock-owner), LOCKT, LOCKU, FREE_STATEID, TEST_STATEID, READ/WRITE/SETATTR (open, lock, anonymous, read-bypass state IDs), REMOVE, RENAME (also over an open file, via PUTROOTFH and via PUTFH), LINK (also of open and of unlinked-but-open files), LOOKUP, PUTFH probes, RECLAIM_COMPLETE, DESTROY_SESSION/DESTROY_CLIENTID inside SEQUENCE, clock advances around the lease time, state-ID deviations (seqid 0/old/future, other file, other client, dead, wrong kind, garbage), retransmissions, duplicates of in-flight requests, false retries, misordered sequence IDs, bad slots and sessions; illegal_op: COMPOUNDs that, after none or some executed operations (PUTROOTFH, LOOKUP+GETFH, OPEN+GETFH, PUTFH+READ/WRITE/CLOSE/LOCK/GETFH, with parks and injected failures as usual), contain an operation NFSv4.1 does not have (the NFSv4.0-only RENEW, OPEN_CONFIRM, SETCLIENTID, SETCLIENTID_CONFIRM, RELEASE_LOCKOWNER, or the literal opcode OP_ILLEGAL) and possibly operations behind it (GETFH, REMOVE, a creating OPEN, another illegal operation): the result at that position must be OP_ILLEGAL/NFS4ERR_OP_ILLEGAL (for the five NFSv4.0 operations also <operation>/NFS4ERR_NOTSUPP, which the error table of RFC 8881 lists) and the last one, the effects of the operations before it stay in the model, nothing behind it is executed (label compound_with_illegal_op); two thirds of them are followed at once by a retransmission or false retry (when completed) or a duplicate or false retry (while parked), and 30% of all false retries are single-place variants of the original request (an operation replaced by OP_ILLEGAL or an NFSv4.0 operation, the illegal operation replaced by another illegal or a valid one, the operations behind it changed, an operation appended or dropped); one-shot injected failures (EIO/EACCES/ENOENT) of VirtualOpenChild, VirtualOpenSelf, file allocation, VirtualRead/VirtualWrite (after the park) and VirtualSetAttributes; initial CREATE_SESSION sequence IDs at 2^32-3..2^32-1 and 0; preset_slot: the last sequence ID of an idle slot is placed at 2^32-3..2^32-1 or 0 through the hook VerifSetSlotSequenceID (what 2^32 requests on the slot would have done; the model then treats the slot as one without a cached reply), after which new requests, retransmissions, in-flight duplicates, false retries and misordered sequence IDs are aimed at that slot 60% of the time, so that they straddle the wrap-around 2^32-1 -> 0; preset_stateid_seqid: the seqid of a live open or lock state ID of a client without a request in flight is placed at 2^32-3..2^32-1 through VerifSetStateIDSeqID, after which OPEN upgrades, OPEN_DOWNGRADE, LOCK, LOCKU, CLOSE, FREE_STATEID, TEST_STATEID and I/O prefer that state ID, the model bumps the seqid as incrementSeqID documents (1 follows 2^32-1, 0 is skipped) and the old/future deviations step back/forward through the same cycle; an observer client that LOCKTs every unit x {READ, WRITE} of the files touched by a release (always in the C20 profile, 10% elsewhere, and always once before the final lease expiry); final drain: release everything, all leases expire, one more call. "
 
 func c18Profile() *profile {
 	return &profile{
@@ -59,6 +59,7 @@ func c18Profile() *profile {
 			"bad_session":            1,
 			"preset_stateid_seqid":   3,
 			"preset_slot":            1,
+			"illegal_op":             2,
 		}),
 		oracle:   map[string]bool{"acct": true},
 		parkPct:  35,
@@ -117,6 +118,7 @@ func c19Profile() *profile {
 			"bad_session":           1,
 			"preset_slot":           4,
 			"preset_stateid_seqid":  2,
+			"illegal_op":            4,
 		}),
 		oracle:   map[string]bool{"acct": true},
 		parkPct:  50,
@@ -198,7 +200,7 @@ func TestC19NFS41ExactlyOnce(t *testing.T) {
 		p.excludeDup = true
 	}
 	rec := simkit.NewRecorder(t, "C19", "nfs41_exactly_once", commonRule+
-		"ORACLE: slot model per (session, slot): sequence == last => the reply must be XDR-byte-equal to the original's (or, when the original was sent without sa_cachethis and had >= 2 results, the documented NFS4ERR_RETRY_UNCACHED_REP form) and leaf open/close/I-O counters, file count, root change ID and VerifStateCounts must not move; a duplicate that arrives while the original is parked must not be answered before the original completes and must complete, in the same quiescence as the original, with the original's result; a different operation list under the same slot+sequence => NFS4ERR_SEQ_FALSE_RETRY where the difference is in the number or types of operations covered by the cached reply (as the upstream FalseRetries tests document), otherwise either that or the original's cached reply, never executed; sequence neither last nor last+1 (32 bit arithmetic: 0 follows 2^32-1) => NFS4ERR_SEQ_MISORDERED without side effects; all of this also on slots whose sequence ID was preset just below 2^32 (labels slot_sequence_wrapped, replay_at_wrap_around, misordered_at_wrap_around, inflight_duplicate_at_wrap_around, false_retry_at_wrap_around); bad slot / unknown session => BADSLOT / BADSESSION; CREATE_SESSION with the previous sequence => byte-equal reply and no second session, other sequence => SEQ_MISORDERED; every executed request is checked against the C18 model as well. "+
+		"ORACLE: slot model per (session, slot): sequence == last => the reply must be XDR-byte-equal to the original's (or, when the original was sent without sa_cachethis and had >= 2 results, the documented NFS4ERR_RETRY_UNCACHED_REP form) and leaf open/close/I-O counters, file count, root change ID and VerifStateCounts must not move; a duplicate that arrives while the original is parked must not be answered before the original completes and must complete, in the same quiescence as the original, with the original's result; a different operation list under the same slot+sequence => NFS4ERR_SEQ_FALSE_RETRY where the difference is in the number or types of operations covered by the cached reply (as the upstream FalseRetries tests document), otherwise either that or the original's cached reply, never executed (a cached OP_ILLEGAL result fits every requested operation at its position, so a retry that differs only there or behind it need not be detected: false_retry_against_cached_illegal_op; a requested OP_ILLEGAL or NFSv4.0-only operation fits no cached result of another type: false_retry_with_illegal_op_against_cached_reply); the replies of COMPOUNDs that ended at an operation NFSv4.1 does not have are replies like any other: retransmission => byte-equal (or, without sa_cachethis and with >= 3 results, the RETRY_UNCACHED_REP form), in-flight duplicate => the original's result (replay_of_compound_with_illegal_op, inflight_duplicate_of_compound_with_illegal_op); sequence neither last nor last+1 (32 bit arithmetic: 0 follows 2^32-1) => NFS4ERR_SEQ_MISORDERED without side effects; all of this also on slots whose sequence ID was preset just below 2^32 (labels slot_sequence_wrapped, replay_at_wrap_around, misordered_at_wrap_around, inflight_duplicate_at_wrap_around, false_retry_at_wrap_around); bad slot / unknown session => BADSLOT / BADSESSION; CREATE_SESSION with the previous sequence => byte-equal reply and no second session, other sequence => SEQ_MISORDERED; every executed request is checked against the C18 model as well. "+
 		"NON-TRIVIAL: a retransmission of a successful OPEN/CLOSE/LOCK/LOCKU/OPEN_DOWNGRADE/FREE_STATEID compound was answered from the cache AND a duplicate of an in-flight request completed with the original's result. Distinct by script hash")
 	runProperty(t, p, rec)
 }
